@@ -34,10 +34,10 @@ m = {
     "setup_cmd": "./setup.sh",
     "hooks": {
         "guard": "cargo feature `verif` of the litep2p crate (cfg(feature = \"verif\"))",
-        "enable": "the harness crate /verif/harness depends on litep2p = { path = \"/repo\", features = [\"verif\"] }",
+        "enable": "the harness crate /verif/harness depends on litep2p = { path = \"/repo\", features = [\"verif\"] }. All hook commits only add cfg-gated code (later hook commits also rewrite earlier hook code in verif*.rs files) with ONE exception: the commit 'verif hooks: MemoryStore clock override' routes the three `std::time::Instant::now()` reads of src/protocol/libp2p/kademlia/store.rs through a helper `fn now()` that is `#[inline(always)] Instant::now()` with the feature off and a per-thread logical clock with it (needed to hit the expiry boundary `now == expires` exactly); hence add_only is false",
         "baseline_off_cmd": "cd /repo && cargo test --workspace --no-fail-fast --offline",
         "source_commits": hook_commits,
-        "add_only": True,
+        "add_only": False,
     },
     "engines": [{
         "name": "coq-model+correspondence",
